@@ -127,3 +127,14 @@ func debugOwns(repo string) int {
 	}
 	return 0
 }
+
+func debugScopeNames(p *Program) []string {
+	var out []string
+	for f := range p.decodeHelperScope() {
+		if _, in := p.codecScope()[f]; !in {
+			out = append(out, fnName(f))
+		}
+	}
+	sort.Strings(out)
+	return out
+}
